@@ -9,7 +9,8 @@ LEVEL = 'proof'
 
 MANIFEST = dict(
     text='Theorems (Coq, induction over all Plutus data / all class descriptions): the constructor-id/tag mapping is a bijection onto '
-         '121-127, 1280-1400, 102; canonically shaped typed dataclasses, RawPlutusData and the JSON form encode to exactly '
+         '121-127, 1280-1400, 102; canonically shaped typed dataclasses (maps keyed by int/bytes or by class instances included), '
+         'RawPlutusData and the JSON form encode to exactly '
          'enc(plutus_ref d) (reference encoder transcribed from the ledger codec); decoding those bytes and re-encoding, and the '
          'JSON route, preserve the bytes on decidable sound regions; each unsound region of the pinned tree has a _refuted witness. '
          'get_tag / get_constructor_id_and_fields are re-translated from the current source on every run and proved equal to the model.',
@@ -31,6 +32,15 @@ ASSUMPTIONS = [
     'pure-Python cbor2 is forced (pycardano\'s decoder patches do not reach the C extension)',
     'CONSTR_ID is set explicitly in generated classes (the sha256-derived default id is not modelled)',
     'Python dict key equality is modelled structurally; map keys that are maps are not generated (FrozenDict keys outside the model)',
+    'generated classes are declared @dataclass(unsafe_hash=True) so that instances can be dict keys (Map Credential Integer, '
+    'Dict[Slot, ..]); hash(obj) succeeds iff all field values are hashable, which is what the model\'s `hashable` states',
+    'to_primitive freezes map keys (FrozenList / IndefiniteFrozenList / FrozenDict); the model identifies a frozen container with '
+    'its unfrozen twin (same encoding, equal as Python values) -- this identification is what every generated map keyed by class '
+    'instances checks against the reference bytes',
+    'DOMAIN RESTRICTION (explicit): classes used as dict KEYS have only int / bytes / ByteString / key-class / Union-of-key-class '
+    'fields. A Datum-typed field inside a key class is left out: with an int or bytes in it the object is hashable and encodes '
+    'correctly, but from_dict rebuilds the field as RawPlutusData, which is unhashable, so from_dict(to_dict(x)) raises TypeError '
+    '(reported to the coordinator as a finding of the unchanged tree)',
     'json.dumps/json.loads is the identity on the dict form (checked: the from_json(to_json) route is compared with from_dict(to_dict))',
     'lists hold fewer than 24 elements (the patched decode_array mis-reads definite arrays of 24+ elements; reported separately)',
     'blake2b is external: datum_hash is checked to be the hash of the same bytes as to_cbor; equal bytes give equal hashes',
@@ -296,10 +306,57 @@ def fixed_cases():
     cs.append({'kind': 'typed', 't': E, 'x': ['o', 9, [], []]})
     E2 = ['cls', 200, []]
     cs.append({'kind': 'typed', 't': E2, 'x': ['o', 200, [], []]})
+    cs += objkey_cases()
     D = ['cls', 3, [['datum'], ['ilist']]]
     for dv in (['i', 5], ['b', '6162'], ['il', [['i', 1]]], ['il', []], ['d', [[['i', 1], ['i', 2]]]], ['r', ['t', 121, ['il', [['i', 1]]]]],
                ['r', ['t', 121, ['l', []]]], ['o', 2, [['int']], [['i', 1]]], ['r', ['t', 102, ['l', [['i', 200], ['il', [['t', 122, ['l', []]]]]]]]]):
         cs.append({'kind': 'typed', 't': D, 'x': ['o', 3, D[2], [dv, ['il', [['i', 1], ['t', 121, ['l', []]]]]]]})
+    return cs
+
+
+def objkey_cases():
+    """maps keyed by class instances (Map Credential Integer, Dict[Slot, ..]): every constructor-id class of key (compact
+    tags 121-127 / 1280-1400, general form 102), keys without fields, nested keys, Union-typed fields inside a key, Union key
+    types, ByteString over 64 bytes inside a key, such maps below lists / dicts / nested classes, as keys AND values"""
+    cs = []
+
+    def obj(t, vals):
+        return ['o', t[1], t[2], vals]
+
+    def add(fts, vals, cid=2):
+        t = ['cls', cid, fts]
+        cs.append({'kind': 'typed', 't': t, 'x': obj(t, vals)})
+    h1, h2, h3 = '11' * 28, '22' * 28, '03' * 28
+    for i in [0, 6, 7, 127, 128, 1000, 2**32]:
+        K = ['cls', i, [['int'], ['bytes']]]
+        add([['dict', K, ['int']]], [['d', [[obj(K, [['i', 1], ['b', '61']]), ['i', 1]], [obj(K, [['i', 2], ['b', '']]), ['i', 2]]]]])
+        K0 = ['cls', i, []]
+        add([['dict', K0, ['int']]], [['d', [[obj(K0, []), ['i', 1]]]]])
+        add([['dict', K, ['int']]], [['d', []]])
+    # the script-context shapes: Map StakingCredential Integer with a Union inside the key; a general-form key
+    pk, sc = ['cls', 0, [['bytes']]], ['cls', 1, [['bytes']]]
+    sh = ['cls', 0, [['union', [pk, sc]]]]
+    add([['dict', sh, ['int']], ['bytes']],
+        [['d', [[obj(sh, [obj(sc, [['b', h2]])]), ['i', 5000000]], [obj(sh, [obj(pk, [['b', h1]])]), ['i', 0]],
+                [obj(sh, [obj(pk, [['b', h3]])]), ['i', 2**64]]]], ['b', '6d656d6f']])
+    slot = ['cls', 1000, [['int'], ['int']]]
+    add([['dict', slot, ['ilist']], ['dict', pk, ['int']]],
+        [['d', [[obj(slot, [['i', 400], ['i', 7]]), ['il', [['i', 1], ['i', 2]]]],
+                [obj(slot, [['i', 3], ['i', 2**32]]), ['il', [['b', '78']]]]]],
+         ['d', [[obj(pk, [['b', h3]]), ['i', -1]], [obj(pk, [['b', h1]]), ['i', 3]]]]], cid=9)
+    # nested key with a chunked ByteString; key objects as values too; Union key type
+    kn = ['cls', 1, [pk, ['bstr']]]
+    add([['dict', kn, pk]], [['d', [[obj(kn, [obj(pk, [['b', h1]]), ['s', '71' * 70]]), obj(pk, [['b', h2]])]]]])
+    ku = ['union', [pk, slot]]
+    add([['dict', ku, ['int']]], [['d', [[obj(pk, [['b', h1]]), ['i', 1]], [obj(slot, [['i', 2], ['i', 3]]), ['i', 2]]]]])
+    # the keyed map below a list, below a dict value, below a nested class
+    inner = ['cls', 5, [['dict', pk, ['ilist']]]]
+    iv = obj(inner, [['d', [[obj(pk, [['b', h1]]), ['il', [['i', 1]]]]]]])
+    add([['list', inner]], [['il', [iv, iv]]], cid=4)
+    add([['dict', ['int'], inner]], [['d', [[['i', 7], iv]]]], cid=4)
+    add([['dict', ['bytes'], ['dict', slot, ['int']]]],
+        [['d', [[['b', '6b'], ['d', [[obj(slot, [['i', 1], ['i', 2]]), ['i', 3]]]]]]]], cid=4)
+    add([['union', [inner, pk]], inner], [iv, iv], cid=130)
     return cs
 
 
@@ -373,8 +430,12 @@ def correspond(ctx, n=None):
     if errs:
         raise RuntimeError('cases file failed to compile: ' + errs[0])
     kinds, regions, depth_hist = {}, {}, {}
+    objkey = {'typed_cases_with_class_instance_keys': 0, 'of_which_some_key_has_fields': 0}
     for c in cases:
         kinds[c['kind']] = kinds.get(c['kind'], 0) + 1
+        if c['kind'] == 'typed' and G.has_objkey(c['x'], False):
+            objkey['typed_cases_with_class_instance_keys'] += 1
+            objkey['of_which_some_key_has_fields'] += int(G.has_objkey(c['x'], True))
         if c['kind'] == 'raw':
             dd = G.depth_of(c['d']); depth_hist[dd] = depth_hist.get(dd, 0) + 1
     known_hits, new_fail = 0, []
@@ -395,11 +456,13 @@ def correspond(ctx, n=None):
         rule='fixed boundary cases (every constructor-id/tag boundary incl. 6,7,127,128,2^32; every CBOR integer width boundary, +-2^64, +-2^70, '
              '+-2^512; byte strings of 0,1,63,64,65,128,129,.. bytes; empty lists/maps/fields; exotic map keys; the Haskell fixture) plus random '
              'recursive data to depth 4 and random typed class descriptions to depth 3 (int/bytes/ByteString/List/Dict/nested class/Union/'
-             'IndefiniteList/Datum fields, generated as Python dataclass source in the driver) with conforming values; per case every route '
-             '(build, decode+encode, to_dict, from_dict, from_json, datum_hash) is compared with the model and with enc(plutus_ref d); '
+             'IndefiniteList/Datum fields; Dict keys int/bytes/ByteString or instances of hashable classes (any constructor id, with or '
+             'without fields, nested, Union inside and as the key type); generated as Python dataclass source in the driver) with '
+             'conforming values; per case every route '
+             '(build, decode+encode, to_dict, from_dict, from_json, datum_hash, the object as redeemer data) is compared with the model and with enc(plutus_ref d); '
              'non-trivial = raw data of depth >= 1 or a class with >= 1 field; distinct by hash of the input',
         samples=[{k: v for k, v in cases[j].items() if k != 'json'} for j in (0, len(cases) // 2, len(cases) - 1)],
-        kind_histogram=kinds, raw_depth_histogram=depth_hist, region_histogram=regions,
+        kind_histogram=kinds, raw_depth_histogram=depth_hist, region_histogram=regions, map_key_histogram=objkey,
         known_region_hits=known_hits, known_regions=KNOWN_REGIONS,
         routes_observed=stats[0], routes_in_sound_region=stats[1],
         compared='implementation bytes/JSON/exception kind of every route = model (exact) and = enc(plutus_ref d) / json_of d (oracle)',
